@@ -51,7 +51,7 @@ pub fn bei16(v: &mut Vec<u8>, x: i16) {
 
 /// offsets of the MVAR-controlled fields, in the order of process_mvar's arms:
 /// (table, byte offset); table 0 = OS/2, 1 = vhea, 2 = hhea, 3 = post
-const FIELDS: [(u8, usize); 28] = [
+pub const FIELDS: [(u8, usize); 28] = [
     (0, 68), (0, 70), (0, 72), (0, 74), (0, 76), // hasc hdsc hlgp hcla hcld
     (1, 4), (1, 6), (1, 8),                     // vasc vdsc vlgp
     (2, 18), (2, 20), (2, 22),                  // hcrs hcrn hcof
@@ -712,7 +712,7 @@ pub fn gen_map_bytes(rng: &mut Rng, count: usize, max_outer: u16, max_inner: u16
     v
 }
 
-const MVAR_TAGS: [&[u8; 4]; 28] = [
+pub const MVAR_TAGS: [&[u8; 4]; 28] = [
     b"hasc", b"hdsc", b"hlgp", b"hcla", b"hcld", b"vasc", b"vdsc", b"vlgp", b"hcrs", b"hcrn", b"hcof", b"vcrs", b"vcrn", b"vcof",
     b"xhgt", b"cpht", b"sbxs", b"sbys", b"sbxo", b"sbyo", b"spxs", b"spys", b"spxo", b"spyo", b"strs", b"stro", b"unds", b"undo",
 ];
